@@ -398,6 +398,49 @@ def check_handler(fname, h):
     return names
 
 
+# calls the loop body may make.  value: which exceptions outside the handled set {KeyboardInterrupt, IOError,
+# sec.*} the call can let out ('' = none by its own contract).  A call or an object comparison that is not
+# listed here makes the extraction fail: a new kind of call in the loop has to be looked at.
+LOOP_CALLS = {
+    'terminate': '', 'self.terminate': '', 'isinstance': '', 'len': '', 'log.error': '', 'log.debug': '',
+    'self.exchange': '',              # catches nfc.clf.CommunicationError and pdu.Error itself
+    'pdu.Symmetry': '', 'pdu.Disconnect': '', 'pdu.DataProtectionSetup': '',
+    'sec.cipher_suite': '', 'cipher.calculate_session_key': '',
+    'self.collect': 'pdu.EncodeError (C10/C11: what is collected can be encoded)',
+    'self.dispatch': 'exceptions of socket enqueue (C07)',
+}
+LOOP_PDU_EQ = 'rcvd_pdu == pdu.Disconnect(0, 0)'      # ProtocolDataUnit.__eq__ encodes both sides
+
+
+def loop_uncovered(fn, tr):
+    """the calls in the try body that can raise something the handlers do not cover; fails closed on new ones"""
+    unc = []
+    for n in tr.body:
+        for m in ast.walk(n):
+            if isinstance(m, ast.Call):
+                d = dotted(m.func)
+                if d not in LOOP_CALLS:
+                    raise SkelError('%s: unclassified call %s in the link loop' % (fn.name, d or ast.dump(m.func)[:60]))
+                if LOOP_CALLS[d] and d not in [u.split(':')[0] for u in unc]:
+                    unc.append('%s: %s' % (d, LOOP_CALLS[d]))
+            elif isinstance(m, ast.Compare):
+                simple = all(isinstance(x, (ast.Constant, ast.Name)) or dotted(x) is not None
+                             or (isinstance(x, ast.Call) and dotted(x.func) == 'len')
+                             or (isinstance(x, ast.Subscript) and dotted(x.value) == 'self.cfg')
+                             for x in [m.left] + m.comparators)
+                is_ident = all(isinstance(o, (ast.Is, ast.IsNot)) for o in m.ops)
+                obj_eq = (not is_ident) and any(isinstance(x, ast.Call) and dotted(x.func) != 'len' for x in [m.left] + m.comparators)
+                if obj_eq:
+                    if ast.unparse(m) != LOOP_PDU_EQ:
+                        raise SkelError('%s: unclassified object comparison `%s` in the link loop' % (fn.name, ast.unparse(m)))
+                    u = '==: ProtocolDataUnit.__eq__ encodes the received PDU, pdu.EncodeError is not handled (C11: encode of a decoded PDU)'
+                    if u not in unc:
+                        unc.append(u)
+                elif not simple:
+                    raise SkelError('%s: unclassified comparison `%s` in the link loop' % (fn.name, ast.unparse(m)))
+    return unc
+
+
 def check_run_loop(fn):
     body = [n for n in fn.body if not (isinstance(n, ast.Expr) and isinstance(n.value, ast.Constant))]
     if not body or not isinstance(body[-1], ast.Try):
@@ -425,7 +468,7 @@ def check_run_loop(fn):
     handled = []
     for h in tr.handlers:
         handled += check_handler(fn.name, h)
-    return handled
+    return handled, loop_uncovered(fn, tr)
 
 
 # ---------------------------------------------------------------- terminate()
@@ -554,17 +597,22 @@ def generate(repo_root):
     if llc_cls is None:
         raise SkelError('class LogicalLinkController not found')
     loops = []
+    uncovered = []
     for name in RUN_LOOPS:
         fns = [n for n in llc_cls.body if isinstance(n, ast.FunctionDef) and n.name == name]
         if len(fns) != 1:
             raise SkelError('method %s not found' % name)
-        handled = check_run_loop(fns[0])
+        handled, unc = check_run_loop(fns[0])
         loops.append('("%s", [%s])' % (name, '; '.join('"%s"' % h for h in handled)))
+        uncovered.append('("%s", [%s])' % (name, '; '.join('"%s"' % u for u in unc)))
     out.append('')
     out.append('(* the run loops: exception classes whose handler calls self.terminate(<constant>) first (every other')
     out.append('   exit of the try body is `return self.terminate(..)` or the while/else clause with terminate) *)')
     out.append('Definition run_loop_handled : list (string * list string) :=')
     out.append('  [' + ';\n   '.join(loops) + '].')
+    out.append('(* calls in the loop body whose exceptions no handler covers (termination then rests on the named property) *)')
+    out.append('Definition run_loop_uncovered : list (string * list string) :=')
+    out.append('  [' + ';\n   '.join(uncovered) + '].')
     tfn = [n for n in llc_cls.body if isinstance(n, ast.FunctionDef) and n.name == 'terminate']
     if len(tfn) != 1:
         raise SkelError('method terminate not found')
